@@ -51,7 +51,10 @@ func Restrict(l *Lin, guards map[string]bool) *Lin {
 				if rs.W != l.W {
 					// a narrower quantity inside a wider form stands for its (zero-extended)
 					// value: re-read it at the outer width when it cannot wrap at its own
-					if _, hi, ok := rs.rangeNoWrap(); ok && hi <= mask(rs.W) && rs.W < l.W {
+					if rs.W > l.W {
+						// the outer form is modulo its own (smaller) width: so is the inner one
+						rs = linTrunc(rs, l.W)
+					} else if _, hi, ok := rs.rangeNoWrap(); ok && hi <= mask(rs.W) {
 						rs = &Lin{W: l.W, C: rs.C, T: rs.T}
 					} else {
 						r = linAdd(r, &Lin{W: l.W, T: []LinTerm{t}}, false)
